@@ -256,3 +256,26 @@ package callbacks
 //@   min-sites 2
 //@   assert stored-at-the-loop-position: arg1 == idx [C03]
 //@   assert the-value-read-for-that-position: arg0 == v [C03]
+
+//@ # ---------- C03: generated keys are handed out in slice order (no RETURNING) ----------
+//@ # Without RETURNING the driver reports one id: of the first inserted row, or of the last one (LastInsertIDReversed).
+//@ # Records that came with their own key did not consume a generated id, so the running id moves by one increment
+//@ # per record that is given a key, from the reported id: down while walking backwards, up while walking forwards.
+//@ ghost keysSet idAtLoop
+//@ event calldyn Field.Set
+//@   in callbacks.Create$1
+//@   do keysSet = keysSet + 1
+//@ func Create$1
+//@   tags C03
+//@   loop "i := db.Statement.ReflectValue.Len() - 1; i >= 0; i--" entry-do keysSet = 0
+//@   loop "i := db.Statement.ReflectValue.Len() - 1; i >= 0; i--" entry-do idAtLoop = insertID
+//@   loop "i := db.Statement.ReflectValue.Len() - 1; i >= 0; i--" invariant one-step-down-per-key-given: insertID == idAtLoop - keysSet * pkField.AutoIncrementIncrement
+//@   loop "i := 0; i < db.Statement.ReflectValue.Len(); i++" entry-do keysSet = 0
+//@   loop "i := 0; i < db.Statement.ReflectValue.Len(); i++" entry-do idAtLoop = insertID
+//@   loop "i := 0; i < db.Statement.ReflectValue.Len(); i++" invariant one-step-up-per-key-given: insertID == idAtLoop + keysSet * pkField.AutoIncrementIncrement
+//@ site generated-key-is-the-running-id
+//@   match calldyn Field.Set
+//@   in callbacks.Create$1
+//@   min-sites 3
+//@   assert key-given-is-the-running-id: is(arg2, int64) && arg2.(int64) == insertID [C03]
+//@   assert only-to-records-without-a-key: isZero [C03]
